@@ -1,8 +1,8 @@
 //! View-algebra scenarios (C13): a tiny interpreter applying public API operations to views of
 //! one stored content and logging what each returns.
 use crate::out::{catch, emit};
-use jubako as jbk;
 use jbk::reader::{ByteRegion, ByteSlice, ByteStream};
+use jubako as jbk;
 use serde::Deserialize;
 use serde_json::json;
 use std::io::Read;
@@ -43,24 +43,72 @@ fn hex(b: &[u8]) -> String {
         b.iter().map(|x| format!("{:02x}", x)).collect()
     } else {
         let head: String = b[..16].iter().map(|x| format!("{:02x}", x)).collect();
-        format!("b3:{}:{}:{}", b.len(), blake3::hash(b).to_hex(), head)
+        if b.len() <= 8192 {
+            format!("b3:{}:{}:{}", b.len(), blake3::hash(b).to_hex(), head)
+        } else {
+            // long returns: CRC-32 (IEEE) and Adler-32, which the checker computes at native speed
+            format!(
+                "z:{}:{:08x}{:08x}:{}",
+                b.len(),
+                crc32_ieee(b),
+                adler32(b),
+                head
+            )
+        }
     }
+}
+
+fn crc32_ieee(b: &[u8]) -> u32 {
+    let mut table = [0u32; 256];
+    for (i, t) in table.iter_mut().enumerate() {
+        let mut c = i as u32;
+        for _ in 0..8 {
+            c = if c & 1 != 0 {
+                0xEDB8_8320 ^ (c >> 1)
+            } else {
+                c >> 1
+            };
+        }
+        *t = c;
+    }
+    let mut c = 0xFFFF_FFFFu32;
+    for x in b {
+        c = table[((c ^ *x as u32) & 0xFF) as usize] ^ (c >> 8);
+    }
+    c ^ 0xFFFF_FFFF
+}
+
+fn adler32(b: &[u8]) -> u32 {
+    let (mut a, mut s) = (1u32, 0u32);
+    for x in b {
+        a = (a + *x as u32) % 65521;
+        s = (s + a) % 65521;
+    }
+    (s << 16) | a
 }
 
 fn observe(v: &View, k: usize, op: &str) {
     match v {
         View::Region(r) => {
             let sz = r.size().into_u64();
-            let bytes = r.get_slice(jbk::Offset::zero(), sz as usize).map(|c| hex(&c)).unwrap_or_else(|e| format!("err:{e}"));
+            let bytes = r
+                .get_slice(jbk::Offset::zero(), sz as usize)
+                .map(|c| hex(&c))
+                .unwrap_or_else(|e| format!("err:{e}"));
             emit(json!({"ev":"Obs","op":op,"view":k,"kind":"region","size":sz,"bytes":bytes}));
         }
         View::Slice(s) => {
             let sz = s.size().into_u64();
-            let bytes = s.get_slice(jbk::Offset::zero(), sz as usize).map(|c| hex(&c)).unwrap_or_else(|e| format!("err:{e}"));
+            let bytes = s
+                .get_slice(jbk::Offset::zero(), sz as usize)
+                .map(|c| hex(&c))
+                .unwrap_or_else(|e| format!("err:{e}"));
             emit(json!({"ev":"Obs","op":op,"view":k,"kind":"slice","size":sz,"bytes":bytes}));
         }
         View::Stream(s) => {
-            emit(json!({"ev":"Obs","op":op,"view":k,"kind":"stream","size":s.size(),"offset":s.offset(),"sizeLeft":s.size_left()}));
+            emit(
+                json!({"ev":"Obs","op":op,"view":k,"kind":"stream","size":s.size(),"offset":s.offset(),"sizeLeft":s.size_left()}),
+            );
         }
     }
 }
@@ -83,13 +131,20 @@ fn interpret<'a>(root: View<'a>, root_region: &'a ByteRegion, ops: &[VOp]) {
                 // but report it as the slice it is
                 let s = r.cut(jbk::Offset::from(o.a), jbk::Size::from(o.n));
                 let sz = s.size().into_u64();
-                let bytes = s.get_slice(jbk::Offset::zero(), sz as usize).map(|c| hex(&c)).unwrap_or_else(|e| format!("err:{e}"));
-                emit(json!({"ev":"Obs","op":"cut","view":nviews+1,"kind":"slice","size":sz,"bytes":bytes}));
+                let bytes = s
+                    .get_slice(jbk::Offset::zero(), sz as usize)
+                    .map(|c| hex(&c))
+                    .unwrap_or_else(|e| format!("err:{e}"));
+                emit(
+                    json!({"ev":"Obs","op":"cut","view":nviews+1,"kind":"slice","size":sz,"bytes":bytes}),
+                );
                 let owned: ByteRegion = s.into();
                 let leaked: &'a ByteRegion = Box::leak(Box::new(owned));
                 Some(View::Slice(leaked.as_slice()))
             }
-            ("cut", View::Slice(s)) => Some(View::Slice(s.cut(jbk::Offset::from(o.a), jbk::Size::from(o.n)))),
+            ("cut", View::Slice(s)) => Some(View::Slice(
+                s.cut(jbk::Offset::from(o.a), jbk::Size::from(o.n)),
+            )),
             ("as_slice", View::Region(r)) => {
                 let leaked: &'a ByteRegion = Box::leak(Box::new(r.clone()));
                 Some(View::Slice(leaked.as_slice()))
@@ -103,22 +158,36 @@ fn interpret<'a>(root: View<'a>, root_region: &'a ByteRegion, ops: &[VOp]) {
                 let got = match s.read(&mut buf) {
                     Ok(g) => g,
                     Err(e) => {
-                        emit(json!({"ev":"Obs","op":"read","view":o.v,"kind":"err","err":e.to_string()}));
+                        emit(
+                            json!({"ev":"Obs","op":"read","view":o.v,"kind":"err","err":e.to_string()}),
+                        );
                         continue;
                     }
                 };
-                emit(json!({"ev":"Obs","op":"read","view":o.v,"kind":"read","n":o.n,"got":got,"bytes":hex(&buf[..got]),
-                            "size":s.size(),"offset":s.offset(),"sizeLeft":s.size_left()}));
+                emit(
+                    json!({"ev":"Obs","op":"read","view":o.v,"kind":"read","n":o.n,"got":got,"bytes":hex(&buf[..got]),
+                            "size":s.size(),"offset":s.offset(),"sizeLeft":s.size_left()}),
+                );
                 None
             }
             ("get_slice", View::Region(r)) => {
-                let b = r.get_slice(jbk::Offset::from(o.a), o.n as usize).map(|c| hex(&c)).unwrap_or_else(|e| format!("err:{e}"));
-                emit(json!({"ev":"Obs","op":"get_slice","view":o.v,"kind":"bytes","a":o.a,"n":o.n,"bytes":b}));
+                let b = r
+                    .get_slice(jbk::Offset::from(o.a), o.n as usize)
+                    .map(|c| hex(&c))
+                    .unwrap_or_else(|e| format!("err:{e}"));
+                emit(
+                    json!({"ev":"Obs","op":"get_slice","view":o.v,"kind":"bytes","a":o.a,"n":o.n,"bytes":b}),
+                );
                 None
             }
             ("get_slice", View::Slice(s)) => {
-                let b = s.get_slice(jbk::Offset::from(o.a), o.n as usize).map(|c| hex(&c)).unwrap_or_else(|e| format!("err:{e}"));
-                emit(json!({"ev":"Obs","op":"get_slice","view":o.v,"kind":"bytes","a":o.a,"n":o.n,"bytes":b}));
+                let b = s
+                    .get_slice(jbk::Offset::from(o.a), o.n as usize)
+                    .map(|c| hex(&c))
+                    .unwrap_or_else(|e| format!("err:{e}"));
+                emit(
+                    json!({"ev":"Obs","op":"get_slice","view":o.v,"kind":"bytes","a":o.a,"n":o.n,"bytes":b}),
+                );
                 None
             }
             _ => {
@@ -144,9 +213,12 @@ pub fn run(s: &Scn) {
                 let reader: jbk::Reader = if s.source == "pack-mem" {
                     std::fs::read(&s.file).map_err(|e| e.to_string())?.into()
                 } else {
-                    jbk::FileSource::open(&s.file).map_err(|e| e.to_string())?.into()
+                    jbk::FileSource::open(&s.file)
+                        .map_err(|e| e.to_string())?
+                        .into()
                 };
-                let pack = jbk::reader::ContentPack::new(reader).map_err(|e| format!("open: {e}"))?;
+                let pack =
+                    jbk::reader::ContentPack::new(reader).map_err(|e| format!("open: {e}"))?;
                 let region = pack
                     .get_content(jbk::ContentIdx::from(s.idx))
                     .map_err(|e| format!("get_content: {e}"))?
@@ -156,7 +228,10 @@ pub fn run(s: &Scn) {
             }
             "container" => {
                 let c = jbk::reader::Container::new(&s.file).map_err(|e| format!("open: {e}"))?;
-                let a = jbk::ContentAddress::new(jbk::PackId::from(s.pack), jbk::ContentIdx::from(s.idx));
+                let a = jbk::ContentAddress::new(
+                    jbk::PackId::from(s.pack),
+                    jbk::ContentIdx::from(s.idx),
+                );
                 let region = match c.get_bytes(a).map_err(|e| format!("get_bytes: {e}"))? {
                     Some(jbk::reader::MayMissPack::FOUND(Some(r))) => r,
                     _ => return Err("content not found".into()),
@@ -165,8 +240,12 @@ pub fn run(s: &Scn) {
                 interpret(View::Region(region), leaked, &s.ops);
             }
             "entry" => {
-                let reader: jbk::Reader = jbk::FileSource::open(&s.file).map_err(|e| e.to_string())?.into();
-                let pack = Arc::new(jbk::reader::DirectoryPack::new(reader).map_err(|e| format!("open: {e}"))?);
+                let reader: jbk::Reader = jbk::FileSource::open(&s.file)
+                    .map_err(|e| e.to_string())?
+                    .into();
+                let pack = Arc::new(
+                    jbk::reader::DirectoryPack::new(reader).map_err(|e| format!("open: {e}"))?,
+                );
                 let es = pack.create_entry_storage();
                 let index = pack
                     .get_index_from_name("main")
@@ -174,7 +253,9 @@ pub fn run(s: &Scn) {
                     .ok_or("no index main")?;
                 let store = index.get_store(&es).map_err(|e| format!("store: {e}"))?;
                 let store: &'static jbk::reader::EntryStore = Box::leak(Box::new(store));
-                let slice = store.get_entry_reader(jbk::EntryIdx::from(s.idx)).ok_or("no such entry")?;
+                let slice = store
+                    .get_entry_reader(jbk::EntryIdx::from(s.idx))
+                    .ok_or("no such entry")?;
                 let region: ByteRegion = slice.clone().into();
                 let leaked: &'static ByteRegion = Box::leak(Box::new(region));
                 interpret(View::Slice(slice), leaked, &s.ops);
